@@ -220,7 +220,8 @@ CFG = dict(
     bins=["c10"],
     imports=["Run.RunC10"],
     exhaustive=False,
-    rule="part=driver (exhaustive): len 0..=7 (thorough 12) x window 0..=len+3 x second-series length {len, len-1, len+1} x the "
+    rule="part=driver (exhaustive): len 0..=7 (thorough 12) x window 0..=len+3 x second-series length {len, len-1, len+1; at window 0 "
+         "also 0, and there the returned two-series paths are run at the true window 0 with the shorter / empty second series} x the "
          "driver entry points on an instrumented input view (logs uget / uslice / slice with the length at that moment) and an "
          "instrumented output container (logs uset, checks written-exactly-once at assume_init), returned / caller-buffer / "
          "Vec-fast-path output; the trace is compared with the model's (set of reads, multiset of writes, panic kind). "
@@ -242,7 +243,11 @@ CFG = dict(
                "it was fetched from; theorems (all series lengths, all windows incl. 0 and > len): every unchecked read of every "
                "two-phase body is < len, every slice is start <= end <= len, the output slots written are exactly 0..len-1 once "
                "each, window 0 on a non-empty series and a shorter second series panic before anything is exposed, and a callback "
-               "that reads only inside [start, end] stays in bounds. "
+               "that reads only inside [start, end] stays in bounds. Two-series entry points (X12; the model of the returned paths "
+               "now asserts the window on the FIRST series like view.rs - before, window 0 with an empty second series was `Done []` "
+               "in the model and an assertion in the code): for every window and every pair of lengths each of the five entry "
+               "points is the panic of its FIRST failing check (order of the code) or a complete output of the stated length - "
+               "never an unwritten slot; the residual statistics at window 0 assert on both bodies whatever the second series. "
                "Proof, kernels (now inside the trace model, at EVERY carrier - no law of the numeric class or of its order is used): "
                "the rescanning callbacks of cmp.rs (ts_vmin/vmax/vargmin/vargmax/vrank), norm.rs (ts_vminmaxnorm) and reg.rs "
                "(ts_vregx_resid_mean/std/skew) are written a second time in a traced result monad that logs every uget; erasure "
